@@ -230,6 +230,7 @@ fn with_limit<T: Send + 'static>(limit: Duration, f: impl FnOnce() -> T + Send +
         Ok(v) => Some(v),
         Err(_) => {
             RUNAWAYS.fetch_add(1, Ordering::SeqCst);
+            crate::isolate::note_runaway();
             None
         }
     }
